@@ -187,6 +187,7 @@ fn to_string_moved(
             let new_column;
             let mut ref_sheet_name = sheet_name;
             let source_sheet_name = &Some(move_context.source_sheet_name.to_string());
+            let target_sheet_name = &Some(move_context.target_sheet_name.to_string());
 
             if ref_is_in_area(
                 *sheet_index,
@@ -197,6 +198,12 @@ fn to_string_moved(
                 // if the reference is in the area we are moving we want to displace the reference
                 new_row = row + move_context.row_delta;
                 new_column = column + move_context.column_delta;
+                // ... and when it names its sheet, name the sheet the area goes to
+                if move_context.target_sheet_name != move_context.source_sheet_name
+                    && sheet_name.is_some()
+                {
+                    ref_sheet_name = target_sheet_name;
+                }
             } else {
                 // If the reference is not in the area we are moving the reference remains unchanged
                 new_row = *row;
@@ -273,6 +280,7 @@ fn to_string_moved(
             let new_column2;
             let mut ref_sheet_name = sheet_name;
             let source_sheet_name = &Some(move_context.source_sheet_name.to_string());
+            let target_sheet_name = &Some(move_context.target_sheet_name.to_string());
             if ref_is_in_area(
                 *sheet_index,
                 reference_row1,
@@ -285,6 +293,11 @@ fn to_string_moved(
                 move_context.area,
             ) {
                 // if the whole range is inside the area we are moving we want to displace the context
+                if move_context.target_sheet_name != move_context.source_sheet_name
+                    && sheet_name.is_some()
+                {
+                    ref_sheet_name = target_sheet_name;
+                }
                 new_row1 = row1 + move_context.row_delta;
                 new_column1 = column1 + move_context.column_delta;
                 new_row2 = row2 + move_context.row_delta;
